@@ -160,9 +160,20 @@ type tagger struct {
 	tags []string
 	// excluded counts the draws that were redirected because of a listed known finding
 	excluded map[string]int
+	// rejPct is the share of boundary draws that go to alternatives the validation is known to reject (negative controls)
+	rejPct int
 }
 
-func newTagger(t *rapid.T) *tagger { return &tagger{t: t, excluded: map[string]int{}} }
+func newTagger(t *rapid.T) *tagger { return &tagger{t: t, excluded: map[string]int{}, rejPct: 22} }
+
+// pick2 draws the index of a boundary alternative from a list ordered "accepted by validation first": [0,nAcc) are
+// accepted-but-degenerate values, [nAcc,nAcc+nRej) are values the validation rejects.
+func (g *tagger) pick2(name string, nAcc, nRej int) int {
+	if nRej > 0 && (nAcc == 0 || chance(g.t, name+".rejected?", g.rejPct)) {
+		return nAcc + rapid.IntRange(0, nRej-1).Draw(g.t, name+".rej")
+	}
+	return rapid.IntRange(0, nAcc-1).Draw(g.t, name)
+}
 
 func (g *tagger) tag(s string) { g.tags = append(g.tags, s) }
 
